@@ -36,3 +36,50 @@ let () = register "c17" (function
         apply_hop e o) e ops in
     Printf.sprintf "(flags %s) %s" (show_list show_bool (List.rev !flags)) (show_entry final)
   | _ -> failwith "c17: args")
+
+(* ---------- merge (C13-C16) ---------- *)
+let ginfo_of_sexp = function
+  | L [u; d; t] -> { gi_uuid = n_of_sexp u; gi_data = n_of_sexp d; gi_times = times_of_sexp t }
+  | s -> failwith ("ginfo: " ^ show_sexp s)
+let rec tnode_of_sexp = function
+  | L [A "g"; i; L ch] -> NG (ginfo_of_sexp i, List.map tnode_of_sexp ch)
+  | (L (A "e" :: _)) as e -> NE (entry_of_sexp e)
+  | s -> failwith ("tnode: " ^ show_sexp s)
+let dobj_of_sexp = function
+  | L [u; t] -> { d_uuid = n_of_sexp u; d_time = z_of_sexp t }
+  | s -> failwith ("dobj: " ^ show_sexp s)
+let db_of_sexp = function
+  | L [A "db"; i; L ch; L del] ->
+    { db_root_info = ginfo_of_sexp i; db_children = List.map tnode_of_sexp ch; db_deleted = List.map dobj_of_sexp del }
+  | s -> failwith ("db: " ^ show_sexp s)
+
+let show_ginfo i = Printf.sprintf "(%s %s %s)" (show_n i.gi_uuid) (show_n i.gi_data) (show_times i.gi_times)
+let rec show_tnode = function
+  | NG (i, ch) -> Printf.sprintf "(g %s %s)" (show_ginfo i) (show_list show_tnode ch)
+  | NE e -> show_entry e
+let show_db d =
+  Printf.sprintf "(db %s %s %s)" (show_ginfo d.db_root_info) (show_list show_tnode d.db_children)
+    (show_list (fun o -> Printf.sprintf "(%s %s)" (show_n o.d_uuid) (show_z o.d_time)) d.db_deleted)
+
+let show_evtype = function
+  | EntryCreated -> "EntryCreated" | EntryDeleted -> "EntryDeleted"
+  | EntryLocationUpdated -> "EntryLocationUpdated" | EntryUpdated -> "EntryUpdated"
+  | GroupCreated -> "GroupCreated" | GroupDeleted -> "GroupDeleted"
+  | GroupLocationUpdated -> "GroupLocationUpdated" | GroupUpdated -> "GroupUpdated"
+let show_merr = function
+  | EGeneric -> "GenericError" | EFindGroup _ -> "FindGroupError" | EFindEntry _ -> "FindEntryError"
+  | EEntryTime -> "EntryModificationTimeNotUpdated" | EGroupTime -> "GroupModificationTimeNotUpdated"
+  | EDupHistory -> "DuplicateHistoryEntries"
+
+let show_merge_result = function
+  | Ok (d, lg) ->
+    let evs = List.filter_map (function Ev (t, u) -> Some (Printf.sprintf "(%s %s)" (show_evtype t) (show_n u)) | Warn -> None) lg in
+    let w = List.length (List.filter (function Warn -> true | _ -> false) lg) in
+    Printf.sprintf "ok %s (events (%s)) (warnings %d)" (show_db d) (String.concat " " evs) w
+  | Err e -> "err " ^ show_merr e
+  | Panic _ -> "panic"
+  | OutOfFuel -> "timeout"
+
+let () = register "merge" (function
+  | [now; d; s] -> show_merge_result (merge (z_of_sexp now) (db_of_sexp d) (db_of_sexp s))
+  | _ -> failwith "merge: args")
